@@ -131,3 +131,38 @@ func VerifInFlightConcurrent() {
 	verifAssert(conn.armed, "the read deadline is armed while a request is outstanding")
 	verifReach("waiting")
 }
+
+// VerifInFlightTwoOvertaken: two senders have their requests on the wire and the reader handles
+// both responses before either sender has counted its request up (every interleaving within the
+// delay bound): afterwards nothing is outstanding, the counter is back at zero and no read
+// deadline is left armed on the idle connection.
+func VerifInFlightTwoOvertaken() {
+	conn := &vConn{}
+	c := vNewClient(conn, 1)
+	h := &vC18{c: c, conn: conn}
+	wrote := make(chan struct{}, 2)
+	conn.onWrite = func(b []byte) { wrote <- struct{}{} }
+	reg := vReg("t,,1")
+	g1 := vGet(context.Background(), "a", reg)
+	g2 := vGet(context.Background(), "b", reg)
+	done := make(chan struct{}, 2)
+	go func() {
+		verifAssert(c.trySend(g1) == nil, "send 1")
+		done <- struct{}{}
+	}()
+	go func() {
+		verifAssert(c.trySend(g2) == nil, "send 2")
+		done <- struct{}{}
+	}()
+	<-wrote
+	<-wrote // both requests are on the wire
+	h.respond(1)
+	h.respond(2)
+	<-done
+	<-done
+	vPending, vUnmarshalFails = nil, nil
+	verifAssert(vResults(g1) == 1 && vResults(g2) == 1, "both requests are answered")
+	verifAssert(int32(c.inFlight) == 0, "nothing is in flight")
+	verifAssert(!conn.armed, "an idle connection has no read deadline armed")
+	verifReach("idle-after-overtaking")
+}
